@@ -20,6 +20,13 @@ UNITS = {
     'km': ('len', 1e3, '<units name="km"><unit units="metre" prefix="kilo"/></units>'),
     'volt': ('pot', 1.0, None),
     'mV': ('pot', 1e-3, '<units name="mV"><unit units="volt" prefix="milli"/></units>'),
+    # gram and litre are the two standard units that carry a factor of their own (1e-3 kg, 1e-3 m^3); here with exponents other
+    # than 1 (prefixes only on children of exponent 1: see C08)
+    'kg_per_m3': ('dens', 1.0, '<units name="kg_per_m3"><unit units="kilogram"/><unit units="metre" exponent="-3"/></units>'),
+    'g_per_L': ('dens', 1.0, '<units name="g_per_L"><unit units="gram"/><unit units="litre" exponent="-1"/></units>'),
+    'mg_per_L': ('dens', 1e-3, '<units name="mg_per_L"><unit units="gram" prefix="milli"/><unit units="litre" exponent="-1"/></units>'),
+    'm6': ('vol2', 1.0, '<units name="m6"><unit units="metre" exponent="6"/></units>'),
+    'L2': ('vol2', 1e-6, '<units name="L2"><unit units="litre" exponent="2"/></units>'),
 }
 BY_DIM = {}
 for _n, (_d, _s, _x) in UNITS.items():
@@ -84,7 +91,7 @@ def gen_system(rng, ncomp=3, nq=8, depth=3, ode=True, typed=False):
     kinds = ['const'] * 3 + ['cconst'] * 2 + ['alg'] * 4 + (['state'] * 4 if ode else [])
     for j in range(nq):
         k = 'state' if (ode and j == 0) else rng.choice(kinds)
-        q = Quantity(len(qs), k, rng.choice(['one', 'one', 'time', 'len', 'pot']))
+        q = Quantity(len(qs), k, rng.choice(['one', 'one', 'time', 'len', 'pot', 'dens', 'vol2']))
         q.home = rng.randrange(ncomp)
         qs.append(q)
     # equations: dependencies respect a DAG (constants first), states and voi usable anywhere non-constant
@@ -263,7 +270,7 @@ class Reversed:
         return 0.0
 
 
-def to_cellml(sysd, rng, nla=False, perm=None, rename=None, implicit=0.0):
+def to_cellml(sysd, rng, nla=False, perm=None, rename=None, implicit=0.0, nla_ext=0.0):
     """CellML text of the system.  The MathML of every equation is generated once and cached in `sysd`; `perm` (a
     random.Random) reorders components, variables, equations and connections without changing them; `rename` maps
     (component index, variable name) to a new name and 'c<i>' to a new component name."""
@@ -296,6 +303,16 @@ def to_cellml(sysd, rng, nla=False, perm=None, rename=None, implicit=0.0):
                 nvars += ['<variable name="nz" units="dimensionless"/>', '<variable name="nw" units="dimensionless"/>', '<variable name="nu" units="dimensionless"/>']
             rng.shuffle(neqs)
             sysd['nla_block'] = (nvars, neqs)
+            # the right-hand side `na` of the system may be computed in another component (`cnb`, reached through a
+            # connection): an equation then reads a class whose other member carries another name once renamed
+            sysd['nla_ext'] = bool(nla_ext) and rng.random() < nla_ext
+            if sysd['nla_ext']:
+                nvars[2] = '<variable name="na" units="dimensionless" interface="public"/>'
+                # `na` must not stand alone on a side of the implicit equation: listed before `na = 3` it would be taken
+                # for what the equation computes (known finding C05-order-initialised-unknown)
+                neqs = [e.replace('<ci>na</ci></apply>', '<apply><plus/><ci>na</ci><cn cellml:units="dimensionless">0</cn></apply></apply>') if '<plus/><ci>nx</ci>' in e else e for e in neqs]
+                sysd['nla_block'] = (nvars, neqs)
+                sysd['nla_ext_value'] = rng.choice(['3', '5', '2.5'])
         sysd['eqorder'] = {c: [q.idx for q in qs if q.home == c and q.rhs is not None] for c in range(sysd['ncomp'])}
         # how the members of a quantity are connected: a star around the home component, or a chain that starts there; on a
         # chain the initial value may be declared at the far end (two or more connections away from the equation)
@@ -356,7 +373,14 @@ def to_cellml(sysd, rng, nla=False, perm=None, rename=None, implicit=0.0):
         nvars, neqs = list(sysd['nla_block'][0]), list(sysd['nla_block'][1])
         if perm:
             perm.shuffle(nvars); perm.shuffle(neqs)
+        def nrn(comp, t):
+            t = re.sub(r'name="(n[a-z])"', lambda m: 'name="%s"' % rn.get((comp, m.group(1)), m.group(1)), t)
+            return re.sub(r'<ci>(n[a-z])</ci>', lambda m: '<ci>%s</ci>' % rn.get((comp, m.group(1)), m.group(1)), t)
+        nvars = [nrn('cnla', t) for t in nvars]; neqs = [nrn('cnla', t) for t in neqs]
         blocks.append('  <component name="cnla">\n    ' + '\n    '.join(nvars) + '\n    <math xmlns="http://www.w3.org/1998/Math/MathML">\n      ' + '\n      '.join(neqs) + '\n    </math>\n  </component>')
+        if sysd.get('nla_ext'):
+            blocks.append(nrn('cnb', '  <component name="cnb">\n    <variable name="na" units="dimensionless" interface="public"/>\n    <math xmlns="http://www.w3.org/1998/Math/MathML">'
+                                     '<apply><eq/><ci>na</ci><cn cellml:units="dimensionless">%s</cn></apply></math>\n  </component>' % sysd['nla_ext_value']))
         if perm:
             perm.shuffle(blocks)
     out += blocks
@@ -370,6 +394,14 @@ def to_cellml(sysd, rng, nla=False, perm=None, rename=None, implicit=0.0):
     plist = sorted(pairs.items())
     if perm:
         perm.shuffle(plist)
+    if sysd.get('nla_block') and sysd.get('nla_ext'):
+        x, y = rn.get(('cnla', 'na'), 'na'), rn.get(('cnb', 'na'), 'na')
+        conn = ('  <connection component_1="cnla" component_2="cnb">\n    <map_variables variable_1="%s" variable_2="%s"/>\n  </connection>' % (x, y)
+                if not (perm and perm.random() < 0.5) else
+                '  <connection component_1="cnb" component_2="cnla">\n    <map_variables variable_1="%s" variable_2="%s"/>\n  </connection>' % (y, x))
+        nla_conn = conn
+    else:
+        nla_conn = None
     for (a, b), vs in plist:
         if perm:
             perm.shuffle(vs)
@@ -382,6 +414,8 @@ def to_cellml(sysd, rng, nla=False, perm=None, rename=None, implicit=0.0):
             for x, y in vs:
                 out.append('    <map_variables variable_1="%s" variable_2="%s"/>' % (x, y))
         out.append('  </connection>')
+    if nla_conn:
+        out.append(nla_conn)
     out.append('</model>')
     return '\n'.join(out) + '\n'
 
